@@ -680,17 +680,17 @@ theorem stmt_follows (st : StmtS) (hok : st.ok) (k : List Nat) : Follows (st.tex
   | edge s => exact ⟨35, _, rfl, Or.inr (Or.inr (Or.inr rfl))⟩
 
 /-- one round of the statement loop on a statement -/
-theorem stmtLoop_step (inc : Bool) (f : Nat) (a : AS) (acc : List Call) (st : StmtS) (k : List Nat) (hok : st.ok) (hk : Follows k)
-    (hr : a.rest = st.text ++ k) :
+theorem stmtLoop_step (inc : Bool) (f : Nat) (a : AS) (acc : List Call) (st : StmtS) (k : List Nat) (hok : st.ok) (hk : NWS k)
+    (h91 : ([91] : List Nat).isPrefixOf k = false) (ws : List Nat) (hws : Filler ws) (hr : a.rest = ws ++ (st.text ++ k)) :
     ∃ a', stmtLoop inc (f + 1) a acc = stmtLoop inc f a' (acc ++ [st.call]) ∧ a'.rest = k := by
   have hfol := stmt_follows st hok k
-  have hs : a.skipWs.rest = st.text ++ k := skipWs_spec a [] _ (by simpa using hr) (by intro c hc; cases hc) hfol.nws
+  have hs : a.skipWs.rest = st.text ++ k := skipWs_spec a ws _ hr hws hfol.nws
   have hp1 : (peekWs a).1 = (st.text ++ k).headD 0 := by show a.skipWs.peek = _; unfold AS.peek; rw [hs]
   have hp2 : (peekWs a).2 = a.skipWs := rfl
   cases st with
   | rule r =>
     obtain ⟨c, t, e, hc⟩ := rule_head r hok k
-    obtain ⟨a', h, hr'⟩ := C10_rule a.skipWs r k hok hk.nws hs
+    obtain ⟨a', h, hr'⟩ := C10_rule a.skipWs r k hok hk hs
     have hc0 : ((r.text ++ k).headD 0 == 0) = false ∧ ((r.text ++ k).headD 0 == 46) = false ∧ ((r.text ++ k).headD 0 == 35) = false ∧ ((r.text ++ k).headD 0 == 37) = false := by
       rw [e]
       rcases hc with h | h | h
@@ -713,7 +713,7 @@ theorem stmtLoop_step (inc : Bool) (f : Nat) (a : AS) (acc : List Call) (st : St
       | none => exact (sep_dot _).nws
       | some b => intro c r e; simp only [AssumeS.inner, List.cons_append] at e; cases e; decide
     obtain ⟨a5, e5, r5⟩ := alt_present kwAssume dAssume _ a4 s.ws0 _ (by rw [r4, r3, r2, r1, hr0]) hw0 hnw
-    obtain ⟨a6, e6, r6⟩ := dAssume_spec a5 s.br s.wsDot k hb hwd hk.nws r5
+    obtain ⟨a6, e6, r6⟩ := dAssume_spec a5 s.br s.wsDot k hb hwd hk r5
     have hdir : directive inc a.skipWs = .ok (.call (.assume (AssumeS.vals s.br)), a6) := by
       unfold directive
       rw [show ([35, 109, 105, 110, 105, 109, 105, 122, 101] : List Nat) = kwMinimize from rfl, e1,
@@ -737,7 +737,7 @@ theorem stmtLoop_step (inc : Bool) (f : Nat) (a : AS) (acc : List Call) (st : St
       | none => exact (sep_dot _).nws
       | some b => intro c r e; simp only [ProjectS.inner, List.cons_append] at e; cases e; decide
     obtain ⟨a2, e2, r2⟩ := alt_present kwProject dProject _ a1 s.ws0 _ (by rw [r1, hr0]) hw0 hnw
-    obtain ⟨a3, e3, r3⟩ := dProject_spec a2 s.br s.wsDot k hb hwd hk.nws r2
+    obtain ⟨a3, e3, r3⟩ := dProject_spec a2 s.br s.wsDot k hb hwd hk r2
     have hdir : directive inc a.skipWs = .ok (.call (.project (ProjectS.vals s.br)), a3) := by
       unfold directive
       rw [show ([35, 109, 105, 110, 105, 109, 105, 122, 101] : List Nat) = kwMinimize from rfl, e1,
@@ -756,7 +756,7 @@ theorem stmtLoop_step (inc : Bool) (f : Nat) (a : AS) (acc : List Call) (st : St
     obtain ⟨a3, e3, r3⟩ := alt_absent kwOutput dOutput _ a2 (by rw [r2, r1, hr0]; simp [kwOutput, kwExternal, List.isPrefixOf])
     have hnw : NWS (s.atom.text ++ (46 :: (s.wsDot ++ (ExternalS.valT s.val ++ k)))) := lower_nws (atomItem_head s.atom hat _)
     obtain ⟨a4, e4, r4⟩ := alt_present kwExternal dExternal _ a3 s.ws0 _ (by rw [r3, r2, r1, hr0]) hw0 hnw
-    obtain ⟨a5, e5, r5⟩ := dExternal_spec a4 s.atom s.wsDot s.val k hat hwd hv hk.nws hk.no91 r4
+    obtain ⟨a5, e5, r5⟩ := dExternal_spec a4 s.atom s.wsDot s.val k hat hwd hv hk h91 r4
     have hdir : directive inc a.skipWs = .ok (.call (.external s.atom.n (ExternalS.value s.val)), a5) := by
       unfold directive
       rw [show ([35, 109, 105, 110, 105, 109, 105, 122, 101] : List Nat) = kwMinimize from rfl, e1,
@@ -779,7 +779,7 @@ theorem stmtLoop_step (inc : Bool) (f : Nat) (a : AS) (acc : List Call) (st : St
     obtain ⟨a5, e5, r5⟩ := alt_absent kwAssume dAssume _ a4 (by rw [r4, r3, r2, r1, hr0]; simp [kwAssume, kwEdge, List.isPrefixOf])
     obtain ⟨a6, e6, r6⟩ := alt_absent kwHeuristic dHeuristic _ a5 (by rw [r5, r4, r3, r2, r1, hr0]; simp [kwHeuristic, kwEdge, List.isPrefixOf])
     obtain ⟨a7, e7, r7⟩ := alt_present kwEdge dEdge _ a6 s.ws0 _ (by rw [r6, r5, r4, r3, r2, r1, hr0]) hw0 (by intro c r e; cases e; decide)
-    obtain ⟨a8, e8, r8⟩ := dEdge_spec a7 s k hok hk.nws r7
+    obtain ⟨a8, e8, r8⟩ := dEdge_spec a7 s k hok hk r7
     have hdir : directive inc a.skipWs = .ok (.call (.acycEdge s.s s.t (bodyVals s.cond)), a8) := by
       unfold directive
       rw [show ([35, 109, 105, 110, 105, 109, 105, 122, 101] : List Nat) = kwMinimize from rfl, e1,
@@ -839,7 +839,7 @@ theorem stmtLoop_prog (inc : Bool) (stmts : List StmtS) (hok : ∀ st ∈ stmts,
     cases f with
     | zero => simp at hf
     | succ f =>
-      obtain ⟨a1, h1, hr1⟩ := stmtLoop_step inc f a acc st (progText r) (hok st (by simp)) (progText_follows r (fun s hs => hok s (by simp [hs]))) hr
+      obtain ⟨a1, h1, hr1⟩ := stmtLoop_step inc f a acc st (progText r) (hok st (by simp)) (progText_follows r (fun s hs => hok s (by simp [hs]))).nws (progText_follows r (fun s hs => hok s (by simp [hs]))).no91 [] (by intro c hc; cases hc) (by simpa [progText] using hr)
       obtain ⟨a2, h2, hr2⟩ := ih (fun s hs => hok s (by simp [hs])) f (by simp at hf; omega) a1 (acc ++ [st.call]) hr1
       exact ⟨a2, by rw [h1, h2]; simp, hr2⟩
 
